@@ -75,6 +75,9 @@ def parseStep (j : Json) : Except String Step := do
   match (← sfld j "t") with
   | "named" => return .named c (← optOf chars (← fld j "name"))
   | "using" => return .using c (← parseKw (← fld j "kw"))
+  -- `class X(P): pass` — an ordinary class statement: a direct subclass with an empty own dictionary,
+  -- which is the transition the model has for `P.using()` (clone, nothing set)
+  | "class_stmt" => return .using c []
   | "validated_by" => return .validatedBy false c (← (← afld j "vs").mapM nat)
   | "descent_validated_by" => return .validatedBy true c (← (← afld j "vs").mapM nat)
   | "including_validators" =>
